@@ -171,6 +171,10 @@ func newScratch(p *Prop, withTests bool) (*scratch, map[string][]byte, error) {
 			fmt.Fprintf(&glue, "\te2e_%s %q\n", name, p.PkgPath+"/e2e_"+name)
 			twin := strings.Replace(string(b), "package main", "package e2e_"+name, 1)
 			twin = strings.Replace(twin, "import \"host\"", e2eHostDecl, 1)
+			for _, pk := range []string{"fmt", "io", "sort"} {
+				// already imported by the host declarations
+				twin = strings.Replace(twin, "\nimport \""+pk+"\"\n", "\n", 1)
+			}
 			twin = strings.Replace(twin, "func main()", "func Main()", 1)
 			sub := filepath.Join(dir, "e2e_"+name)
 			os.MkdirAll(sub, 0o755)
@@ -1106,6 +1110,7 @@ var host struct {
 	Sort  func(sort.Interface)
 	Read  func(io.Reader)
 	Write func(io.Writer)
+	Copy  func(io.Reader)
 }
 
 // Bind connects the program to its inputs and outputs.
@@ -1117,4 +1122,5 @@ func Bind(h map[string]interface{}) {
 	host.Sort = h["Sort"].(func(sort.Interface))
 	host.Read = h["Read"].(func(io.Reader))
 	host.Write = h["Write"].(func(io.Writer))
+	host.Copy = h["Copy"].(func(io.Reader))
 }`
